@@ -295,6 +295,10 @@ def describe(e, fl, node, cls, repo, pilot, atol_name, atol_default):
         return (kind, b, "non-strict" if op == "<=" else "strict", relax)
     if isinstance(e, ast.Call) and call_name(e) in ("any",) and e.args:
         return ("any", describe(e.args[0], fl, node, cls, repo, pilot, atol_name, atol_default))
+    if isinstance(e, ast.Call) and call_name(e) == "any" and not e.args and not e.keywords and isinstance(e.func, ast.Attribute):
+        return ("any", describe(e.func.value, fl, node, cls, repo, pilot, atol_name, atol_default))      # x.any() is np.any(x)
+    if isinstance(e, ast.Call) and call_name(e) == "bool" and len(e.args) == 1 and not e.keywords:
+        return describe(e.args[0], fl, node, cls, repo, pilot, atol_name, atol_default)
     if isinstance(e, ast.Call) and call_name(e) in ("isclose", "allclose"):
         kw = {k.arg: k.value for k in e.keywords}
         a, b = (e.args + [None, None])[:2]
